@@ -395,6 +395,7 @@ static int tk_run(const uint8_t *hist, int n, uint64_t hash[2], void *arg)
                 if (!applied && i < n - 1) break;       /* cannot happen: prefixes are enabled */
         }
         audit_token("quiescent");
+        mc_count("evaluations", 1);
         mc_hash_init(&now); canon_daemon(&now);
         if (n > 0 && !applied) now = prev;
         hash[0] = now.a; hash[1] = now.b;
